@@ -1,418 +1,11 @@
-import Infretis.Lemmas.WF
-import Infretis.Lemmas.WFSeg
-import Mathlib.Algebra.Order.Field.Rat
-import Mathlib.Tactic.Linarith
+import Infretis.Props.C10Core
+import Infretis.Props.C10Ext
 /-!
 # C10 — wire-fencing weights are exact, symmetric and drive segment choice
 
-Property theorems only (helper lemmas live in `Infretis/Lemmas/WF.lean`).
-Model: `Infretis/Model/WF.lean` (mirrors tis.py `wirefence_weight_and_pick`,
-`compute_weight`, `calc_cv_vector`).  All statements are for order sequences of any length.
+The property theorems (all in `namespace Infretis.C10`) live in two files:
+* `Props/C10Core.lean` — the scan equals the scan-free specification, reversal symmetry, positivity, the pick law,
+  valid segments, the wire-fencing move seed, `compute_weight`, the shape of the weight vector;
+* `Props/C10Ext.lean` — extension pass (model `Model/WFExt.lean`): the traced scan, the frames of the segment handed on
+  by the pick, move strings, `calc_cv_vector` for every ensemble kind, `high_acc_swap`, the call sites.
 -/
-namespace Infretis.C10
-open Infretis.WF
-
-/-- **Exactness.** The five-branch scan returns the number of frames inside `[l, r)` lying on
-    sub-paths connecting left-left, left-right or right-left. -/
-theorem scan_weight_eq_spec (l r : Int) (hlr : l ≤ r) (ops : List Int) :
-    weight l r ops = specWeight l r ops := by
-  rw [weight_eq_runs l r hlr, runs_none_eq_spec]
-
-example : weight 0 2 [-1, 0, 1, 0, -1, 3, 1, 3, 1, -1] = 4 ∧ (0 : Int) ≤ 2 := by decide
-
-/-! ### time-reversal symmetry -/
-
-theorem validAt_symm (l r : Int) (L R : List Int) (x : Int) :
-    validAt l r L x R = validAt l r R x L := by
-  simp [validAt, closes_comm]
-
-theorem countFrom_shift (l r : Int) (L R : List Int) (x : Int) :
-    countFrom l r (x :: R) L + countFrom l r L (x :: R)
-      = countFrom l r R (x :: L) + countFrom l r (x :: L) R := by
-  simp only [countFrom]
-  rw [validAt_symm l r L R x]
-  omega
-
-theorem countFrom_total (l r : Int) : ∀ (R L : List Int),
-    countFrom l r R L + countFrom l r L R
-      = countFrom l r [] (R.reverse ++ L) + countFrom l r (R.reverse ++ L) [] := by
-  intro R
-  induction R with
-  | nil => intro L; simp
-  | cons x R ih =>
-    intro L
-    rw [countFrom_shift, ih (x :: L)]
-    simp
-
-/-- **Symmetry.** The weight is unchanged under time reversal of the path. -/
-theorem spec_reverse (l r : Int) (ops : List Int) :
-    specWeight l r ops.reverse = specWeight l r ops := by
-  have h := countFrom_total l r ops []
-  simp only [List.append_nil] at h
-  unfold specWeight
-  simp only [countFrom] at h
-  omega
-
-theorem weight_reverse (l r : Int) (hlr : l ≤ r) (ops : List Int) :
-    weight l r ops.reverse = weight l r ops := by
-  rw [scan_weight_eq_spec l r hlr, scan_weight_eq_spec l r hlr, spec_reverse]
-
-example : weight 0 2 [3, 1, -1, 1, 1, -1].reverse = weight 0 2 [3, 1, -1, 1, 1, -1]
-    ∧ weight 0 2 [3, 1, -1, 1, 1, -1] = 3 := by decide
-
-/-! ### positivity -/
-
-theorem countFrom_pos_iff (l r : Int) : ∀ (R L : List Int),
-    0 < countFrom l r L R ↔
-      ∃ pre x suf, R = pre ++ x :: suf ∧ validAt l r (pre.reverse ++ L) x suf = true := by
-  intro R
-  induction R with
-  | nil => intro L; simp [countFrom]
-  | cons y t ih =>
-    intro L
-    simp only [countFrom]
-    constructor
-    · intro h
-      by_cases hv : validAt l r L y t = true
-      · exact ⟨[], y, t, rfl, by simpa using hv⟩
-      · have : 0 < countFrom l r (y :: L) t := by
-          simp [hv] at h; exact h
-        obtain ⟨pre, x, suf, he, hx⟩ := (ih (y :: L)).1 this
-        exact ⟨y :: pre, x, suf, by simp [he], by simpa using hx⟩
-    · rintro ⟨pre, x, suf, he, hx⟩
-      cases pre with
-      | nil =>
-        simp at he
-        obtain ⟨rfl, rfl⟩ := he
-        simp at hx
-        simp [hx]
-      | cons z pre =>
-        simp at he
-        obtain ⟨rfl, rfl⟩ := he
-        have : 0 < countFrom l r (y :: L) (pre ++ x :: suf) :=
-          (ih (y :: L)).2 ⟨pre, x, suf, rfl, by simpa using hx⟩
-        omega
-
-/-- **Positivity.** The weight is positive exactly when some frame lies inside `[l, r)` on a
-    valid sub-path (`pre`/`suf` = the frames before/after it). -/
-theorem weight_pos_iff (l r : Int) (hlr : l ≤ r) (ops : List Int) :
-    0 < weight l r ops ↔
-      ∃ pre x suf, ops = pre ++ x :: suf ∧ validAt l r pre.reverse x suf = true := by
-  rw [scan_weight_eq_spec l r hlr]
-  unfold specWeight
-  simpa using countFrom_pos_iff l r ops []
-
-example : ∃ pre x suf, [(-1 : Int), 1, 3] = pre ++ x :: suf ∧ validAt 0 2 pre.reverse x suf = true :=
-  ⟨[-1], 1, [3], rfl, by decide⟩
-
-/-! ### the proportional pick -/
-
-theorem ge_div_iff (n : Nat) (hn : 0 < n) (c : Nat) (xi : Rat) :
-    (((c : Int) : Rat) / ((n : Int) : Rat) ≥ xi) ↔ xi * (n : Rat) ≤ (c : Rat) := by
-  have hn' : (0 : Rat) < ((n : Int) : Rat) := by exact_mod_cast hn
-  rw [ge_iff_le, le_div_iff₀ hn']
-  norm_cast
-
-theorem sumLens_cons (x : Nat × Nat × Nat) (a : List (Nat × Nat × Nat)) :
-    sumLens (x :: a) = x.2.2 + sumLens a := by
-  simp [sumLens]
-
-/-- **Pick law.** With `n` the total weight and `cum < ξ·n` so far (initially `0 < ξ·n`, i.e.
-    ξ > 0), the walk over the segment list returns `seg` exactly when `seg` sits at a position
-    whose cumulative counts bracket `ξ·n`: `cum_before < ξ·n ≤ cum_before + len seg`.
-    Hence the set of ξ selecting a given segment is a half-open interval of length
-    `len seg / n`: probability proportional to its frame count. -/
-theorem pickGo_law (n : Nat) (hn : 0 < n) (xi : Rat) :
-    ∀ (arr : List (Nat × Nat × Nat)) (cum : Nat) (seg : Nat × Nat × Nat),
-      ((cum : Nat) : Rat) < xi * (n : Rat) →
-      (pickGo n xi cum arr = some seg ↔
-        ∃ pre post, arr = pre ++ seg :: post ∧
-          ((cum + sumLens pre : Nat) : Rat) < xi * (n : Rat) ∧
-          xi * (n : Rat) ≤ ((cum + sumLens pre + seg.2.2 : Nat) : Rat)) := by
-  intro arr
-  induction arr with
-  | nil => intro cum seg _; simp [pickGo]
-  | cons s t ih =>
-    intro cum seg hc
-    simp only [pickGo]
-    by_cases h : (((cum + s.2.2 : Nat) : Int) : Rat) / ((n : Int) : Rat) ≥ xi
-    · rw [if_pos h]
-      rw [ge_div_iff n hn] at h
-      constructor
-      · intro he
-        cases he
-        exact ⟨[], t, rfl, by simpa [sumLens] using hc, by simpa [sumLens] using h⟩
-      · rintro ⟨pre, post, he, h1, h2⟩
-        cases pre with
-        | nil => simp at he; rw [he.1]
-        | cons z pre =>
-          simp at he
-          obtain ⟨rfl, rfl⟩ := he
-          rw [sumLens_cons] at h1
-          have : ((cum + s.2.2 : Nat) : Rat) ≤ ((cum + (s.2.2 + sumLens pre) : Nat) : Rat) := by
-            exact_mod_cast (by omega : cum + s.2.2 ≤ cum + (s.2.2 + sumLens pre))
-          linarith
-    · rw [if_neg h]
-      rw [ge_div_iff n hn, not_le] at h
-      rw [ih (cum + s.2.2) seg h]
-      constructor
-      · rintro ⟨pre, post, he, h1, h2⟩
-        refine ⟨s :: pre, post, by simp [he], ?_, ?_⟩
-        · rw [sumLens_cons]; rw [← Nat.add_assoc]; exact h1
-        · rw [sumLens_cons]; rw [← Nat.add_assoc cum]; exact h2
-      · rintro ⟨pre, post, he, h1, h2⟩
-        cases pre with
-        | nil =>
-          simp at he
-          obtain ⟨rfl, rfl⟩ := he
-          simp [sumLens] at h2
-          push_cast at h
-          linarith
-        | cons z pre =>
-          simp at he
-          obtain ⟨rfl, rfl⟩ := he
-          refine ⟨pre, post, rfl, ?_, ?_⟩
-          · rw [sumLens_cons, ← Nat.add_assoc] at h1; exact h1
-          · rw [sumLens_cons, ← Nat.add_assoc cum] at h2; exact h2
-
-/-- `pick` (the value returned with `return_seg`) for `0 < ξ`: the selected segment is one of
-    the scan's valid sub-paths, at the position bracketing `ξ·n`. -/
-theorem pick_law (l r : Int) (ops : List Int) (xi : Rat) (hxi : 0 < xi) (seg : Nat × Nat × Nat) :
-    pick l r ops xi = some seg ↔
-      0 < weight l r ops ∧
-      ∃ pre post, (scan l r ops).arr = pre ++ seg :: post ∧
-        ((sumLens pre : Nat) : Rat) < xi * (weight l r ops : Rat) ∧
-        xi * (weight l r ops : Rat) ≤ ((sumLens pre + seg.2.2 : Nat) : Rat) := by
-  unfold pick weight
-  by_cases hn : sumLens (scan l r ops).arr = 0
-  · simp [hn]
-  · have hpos : 0 < sumLens (scan l r ops).arr := Nat.pos_of_ne_zero hn
-    simp only [hn, if_false]
-    have h0 : ((0 : Nat) : Rat) < xi * (sumLens (scan l r ops).arr : Rat) := by
-      have : (0 : Rat) < (sumLens (scan l r ops).arr : Rat) := by exact_mod_cast hpos
-      simpa using mul_pos hxi this
-    rw [pickGo_law _ hpos xi _ 0 seg h0]
-    simp [hpos]
-
-/-- every ξ ∈ (0, 1] selects some segment when the weight is positive (`random()` ∈ [0,1)) -/
-theorem pickGo_total (n : Nat) (hn : 0 < n) (xi : Rat) :
-    ∀ (arr : List (Nat × Nat × Nat)) (cum : Nat),
-      xi * (n : Rat) ≤ ((cum + sumLens arr : Nat) : Rat) → arr ≠ [] →
-      ∃ seg, pickGo n xi cum arr = some seg ∧ seg ∈ arr := by
-  intro arr
-  induction arr with
-  | nil => intro cum _ h; exact absurd rfl h
-  | cons s t ih =>
-    intro cum hle _
-    simp only [pickGo]
-    by_cases h : (((cum + s.2.2 : Nat) : Int) : Rat) / ((n : Int) : Rat) ≥ xi
-    · exact ⟨s, by rw [if_pos h], by simp⟩
-    · rw [if_neg h]
-      rw [ge_div_iff n hn, not_le] at h
-      cases t with
-      | nil =>
-        simp [sumLens] at hle
-        push_cast at h
-        linarith
-      | cons u t =>
-        rw [sumLens_cons, ← Nat.add_assoc] at hle
-        obtain ⟨seg, h1, h2⟩ := ih (cum + s.2.2) hle (by simp)
-        exact ⟨seg, h1, by simp at h2 ⊢; right; exact h2⟩
-
-theorem pick_total (l r : Int) (ops : List Int) (xi : Rat) (hxi : xi ≤ 1)
-    (hw : 0 < weight l r ops) : ∃ seg, pick l r ops xi = some seg ∧ seg ∈ (scan l r ops).arr := by
-  unfold pick
-  unfold weight at hw
-  have hn : sumLens (scan l r ops).arr ≠ 0 := by omega
-  simp only [hn, if_false]
-  apply pickGo_total _ hw
-  · have : (0 : Rat) ≤ (sumLens (scan l r ops).arr : Rat) := by exact_mod_cast Nat.zero_le _
-    simp only [Nat.zero_add]
-    nlinarith
-  · intro h; rw [h] at hw; simp [sumLens] at hw
-
-example : pick 0 2 [-1, 1, -1, 1, 1, -1] (1 / 2) = some (2, 5, 2) := by decide +kernel
-
-/-! ### the recorded segments are exactly valid sub-paths -/
-
-/-- **Segments.** Every `(a, b, c)` the scan records is a valid sub-path of the path: frames `a` and
-    `b` lie outside `[l, r)` and are not both on the right, every frame strictly between them is
-    inside, and `c = b − a − 1 ≥ 1` counts those frames. -/
-theorem scan_segments_valid (l r : Int) (hlr : l ≤ r) (ops : List Int) :
-    ∀ seg ∈ (scan l r ops).arr, ValidSeg l r ops seg :=
-  scan_segments_valid' l r hlr ops
-
-/-- **The seeding sub-path is one of them.** Whatever ξ ∈ (0, 1] is drawn, the segment returned for
-    a path of positive weight is a valid sub-path in the sense above. -/
-theorem pick_is_valid_segment (l r : Int) (hlr : l ≤ r) (ops : List Int) (xi : Rat) (seg : Nat × Nat × Nat)
-    (h : pick l r ops xi = some seg) : ValidSeg l r ops seg := by
-  unfold pick at h
-  simp only [] at h
-  split at h
-  · simp at h
-  · have : seg ∈ (scan l r ops).arr := by
-      have go : ∀ (arr : List (Nat × Nat × Nat)) (n cum : Nat), pickGo n xi cum arr = some seg → seg ∈ arr := by
-        intro arr
-        induction arr with
-        | nil => intro n cum hh; simp [pickGo] at hh
-        | cons s t ih =>
-          intro n cum hh
-          simp only [pickGo] at hh
-          split at hh
-          · simp at hh; simp [hh]
-          · exact List.mem_cons_of_mem _ (ih n _ hh)
-      exact go _ _ _ h
-    exact scan_segments_valid l r hlr ops seg this
-
-example : ValidSeg 0 2 [-1, 1, -1, 1, 1, -1] (2, 5, 2) :=
-  pick_is_valid_segment 0 2 (by decide) _ (1 / 2) _ (by decide +kernel)
-
-/-- **The sub-path seeding a wire-fencing move is a valid sub-path of [λ_i, cap).**  Whatever ξ is drawn,
-    when the move does not stop with "NSG" the segment it shoots from is a valid sub-path between the
-    ensemble's own interface and the cap (the last interface when no cap is configured), and the
-    sub-ensemble it shoots in is `[λ_i, λ_i, cap]`. -/
-theorem wf_move_seed_valid (i1 i2 : Int) (cap : Option Int) (hc : i1 ≤ cap.getD i2) (ops : List Int)
-    (xi : Rat) (m : MoveSeed) (h : wfMoveSeed i1 i2 cap ops xi = some m) :
-    ValidSeg i1 (cap.getD i2) ops m.seg ∧ m.subIntf = [i1, i1, cap.getD i2] := by
-  unfold wfMoveSeed at h
-  simp only [Option.map_eq_some_iff] at h
-  obtain ⟨seg, hp, rfl⟩ := h
-  exact ⟨pick_is_valid_segment i1 (cap.getD i2) hc ops xi seg hp, rfl⟩
-
-/-- the move stops without MD exactly when the weight below the cap is 0 (for a draw ξ ≤ 1) -/
-theorem wf_move_seed_none_iff (i1 i2 : Int) (cap : Option Int) (ops : List Int) (xi : Rat) (hx : xi ≤ 1) :
-    wfMoveSeed i1 i2 cap ops xi = none ↔ weight i1 (cap.getD i2) ops = 0 := by
-  unfold wfMoveSeed
-  simp only [Option.map_eq_none_iff]
-  constructor
-  · intro h
-    by_cases hw : weight i1 (cap.getD i2) ops = 0
-    · exact hw
-    · exact absurd h (by
-        have := pick_total i1 (cap.getD i2) ops xi hx (Nat.pos_of_ne_zero hw)
-        intro hn; rw [hn] at this; simp at this)
-  · intro h
-    unfold pick
-    simp only []
-    unfold weight at h
-    simp [h]
-
--- a capped move: the path reaches the cap 3 below the last interface 5; the seed is cut at the cap
-example : wfMoveSeed 1 5 (some 3) [0, 1, 2, 4, 2, 1, 0] (1 / 2) = some { subIntf := [1, 1, 3], seg := (0, 3, 2) } := by
-  decide +kernel
-example : ValidSeg 1 3 [0, 1, 2, 4, 2, 1, 0] (0, 3, 2) :=
-  (wf_move_seed_valid 1 5 (some 3) (by decide) [0, 1, 2, 4, 2, 1, 0] (1 / 2)
-    { subIntf := [1, 1, 3], seg := (0, 3, 2) } (by decide +kernel)).1
-
-/-! ### the weight vector -/
-
-/-- `compute_weight` for `wf`: the scan weight, doubled iff start side ≠ end side
-    (for a path defined on both ends: doubled exactly when it connects the two outer sides). -/
-theorem computeWeight_wf (ops : List Int) (i0 i1 i2 : Int) (first last : Int) (h02 : i0 ≤ i2)
-    (hf : ops.head? = some first) (hl : ops.getLast? = some last) :
-    computeWeight ops i0 i1 i2 true =
-      .ok (if sidesDiffer (startPoint i0 i2 first) (endPoint i0 i2 last)
-           then 2 * weight i1 i2 ops else weight i1 i2 ops) := by
-  unfold computeWeight
-  simp [hf, hl, h02]
-  split <;> rfl
-
-/-- connecting the two outer sides doubles; same side does not -/
-theorem sidesDiffer_outer (i0 i2 first last : Int) (h : i0 < i2) :
-    ((first ≤ i0 ∧ last ≥ i2) ∨ (first ≥ i2 ∧ last ≤ i0) →
-        sidesDiffer (startPoint i0 i2 first) (endPoint i0 i2 last) = true) ∧
-    ((first ≤ i0 ∧ last ≤ i0) ∨ (first ≥ i2 ∧ last ≥ i2) →
-        sidesDiffer (startPoint i0 i2 first) (endPoint i0 i2 last) = false) := by
-  unfold startPoint endPoint
-  constructor
-  · rintro (⟨h1, h2⟩ | ⟨h1, h2⟩)
-    · rw [if_pos h1, if_neg (by omega), if_pos h2]; rfl
-    · rw [if_neg (by omega), if_pos h1, if_pos h2]; rfl
-  · rintro (⟨h1, h2⟩ | ⟨h1, h2⟩)
-    · rw [if_pos h1, if_pos h2]; rfl
-    · rw [if_neg (by omega), if_pos h1, if_neg (by omega), if_pos h2]; rfl
-
-/-- `compute_weight` for a non-wf move is 1 -/
-theorem computeWeight_sh (ops : List Int) (i0 i1 i2 : Int) (first last : Int) (h02 : i0 ≤ i2)
-    (hf : ops.head? = some first) (hl : ops.getLast? = some last) :
-    computeWeight ops i0 i1 i2 false = .ok 1 := by
-  unfold computeWeight
-  simp [hf, hl, h02]
-
-/-- shape of the weight vector: length = number of interfaces, last entry 0, and for every
-    shooting ensemble `i` the entry is 1 iff `λ_i ≤ max(order)` (crossing), else 0. -/
-theorem cvVectorGo_shape (ops : List Int) (i0 c pmax : Int) :
-    ∀ (intfs : List Int) (mv : List Bool) (ws : List Nat),
-      cvVectorGo ops i0 c pmax intfs mv = .ok ws →
-      ws.length = intfs.length ∧
-      ∀ k (hk : k < intfs.length) (hm : k < mv.length) (hw : k < ws.length),
-        mv[k] = false → ws[k] = if intfs[k] ≤ pmax then 1 else 0 := by
-  intro intfs
-  induction intfs with
-  | nil =>
-    intro mv ws h
-    simp [cvVectorGo] at h
-    subst h
-    simp
-  | cons a is ih =>
-    intro mv ws h
-    cases mv with
-    | nil => simp [cvVectorGo] at h
-    | cons m ms =>
-      simp only [cvVectorGo] at h
-      split at h
-      · simp at h
-      · rename_i w hw0
-        split at h
-        · simp at h
-        · rename_i ws' hws
-          simp at h
-          subst h
-          obtain ⟨hlen, hrest⟩ := ih ms ws' hws
-          refine ⟨by simp [hlen], ?_⟩
-          intro k hk hm hw hmk
-          cases k with
-          | zero =>
-            simp at hmk
-            subst hmk
-            simp at hw0
-            simp [← hw0]
-          | succ k =>
-            simp at hmk ⊢
-            exact hrest k (by simpa using hk) (by simpa using hm) (by simpa using hw) hmk
-
-theorem cvVector_shape (ops intfs : List Int) (mv : List Bool) (cap : Option Int) (ws : List Nat)
-    (h : cvVector ops intfs mv cap = .ok ws) :
-    ws.length = intfs.length ∧ ws.getLast? = some 0 := by
-  unfold cvVector at h
-  cases hm : maxOf ops with
-  | none => simp [hm] at h
-  | some pmax =>
-    cases hi : intfs.head? with
-    | none => simp [hm, hi] at h
-    | some i0 =>
-      cases hl : intfs.getLast? with
-      | none => simp [hm, hi, hl] at h
-      | some ilast =>
-        simp only [hm, hi, hl] at h
-        split at h
-        · simp at h
-        · rename_i ws' hws
-          have hw : ws = ws' ++ [0] := by
-            injection h with h; exact h.symm
-          subst hw
-          have := (cvVectorGo_shape ops i0 _ pmax _ _ _ hws).1
-          have hne : intfs ≠ [] := by intro e; simp [e] at hi
-          have hpos : 0 < intfs.length := List.length_pos_iff.mpr hne
-          simp [this]
-          omega
-
-/-- `(1,)` for a [0-] path whose maximum reaches the bound (a valid [0-] path starts right of λ₀) -/
-theorem cvMinus_valid (ops : List Int) (bound pmax : Int) (h : maxOf ops = some pmax) :
-    cvMinus ops bound = .ok [if bound ≤ pmax then 1 else 0] := by
-  simp [cvMinus, h]
-
-example : cvVector [-1, 1, 3, 5, 3, -1] [0, 2, 4, 6] [false, true, false] none = .ok [1, 3, 1, 0] := by
-  decide
-
-end Infretis.C10
